@@ -113,7 +113,7 @@ for d in sorted(glob.glob("seeded/C*/")):
     mp = os.path.join(d, "meta.json")
     if os.path.exists(mp):  # keep hand-written fields
         prev = json.load(open(mp))
-        for k in ("run_checks", "note"):
+        for k in ("run_checks", "note", "obsolete"):
             if k in prev:
                 meta[k] = prev[k]
     json.dump(meta, open(mp, "w"), indent=1)
